@@ -1202,7 +1202,16 @@ def none_case_values(fi: FuncInfo, params: list[str], target: str, stop: ast.AST
                         return node
                 return node
         import copy
-        return norm_text(S().visit(copy.deepcopy(e)))
+
+        def pick(x):
+            # a conditional expression over the same tests takes the arm the case selects
+            while isinstance(x, ast.IfExp):
+                t = truth(x.test, env)
+                if t is None:
+                    break
+                x = x.body if t else x.orelse
+            return x
+        return norm_text(S().visit(copy.deepcopy(pick(e))))
 
     def run(stmts, env):
         for st in stmts:
@@ -1513,3 +1522,38 @@ def names_deciding(fi: FuncInfo, exprs: list[ast.AST], stop: Iterable[str] = ())
                         wanted |= more
                         changed = True
     return wanted
+
+
+# --------------------------------------------------------------------------- conjunctions of boolean arrays
+
+def array_conjuncts(flow, expr: ast.AST, depth: int = 6) -> list[tuple[ast.AST, bool]]:
+    """The element-wise conjuncts of a boolean array expression as (operand, negated): locals spelled out, `~` pushed through
+    `|` and `&` (De Morgan), `a & b` taken apart, numpy.logical_and / logical_or / logical_not read as the operators.
+    A disjunction that is not under a negation stays one opaque conjunct."""
+    def res(e):
+        if isinstance(e, ast.Name) and depth:
+            r = flow.resolve(e)
+            return r if r is not None else e
+        return e
+
+    def walk(e, neg, d):
+        e = res(e)
+        if d <= 0:
+            return [(e, neg)]
+        if isinstance(e, ast.UnaryOp) and isinstance(e.op, ast.Invert):
+            return walk(e.operand, not neg, d - 1)
+        if isinstance(e, ast.Call) and (dotted(e.func) or '').rsplit('.', 1)[-1] == 'logical_not' and len(e.args) == 1:
+            return walk(e.args[0], not neg, d - 1)
+        parts = None
+        if isinstance(e, ast.BinOp) and isinstance(e.op, (ast.BitAnd, ast.BitOr)):
+            parts, is_and = [e.left, e.right], isinstance(e.op, ast.BitAnd)
+        elif isinstance(e, ast.Call) and (dotted(e.func) or '').rsplit('.', 1)[-1] in ('logical_and', 'logical_or') and len(e.args) == 2 and not e.keywords:
+            parts, is_and = list(e.args), (dotted(e.func) or '').endswith('logical_and')
+        if parts is not None and (is_and != neg):
+            # a conjunction as it stands, or a negated disjunction
+            out = []
+            for x in parts:
+                out += walk(x, neg, d - 1)
+            return out
+        return [(e, neg)]
+    return walk(expr, False, depth)
